@@ -76,6 +76,12 @@ def run(ctx, prefix):
         scripts.append(sets([("/al%d" % i, i + 1) for i in range(6)] + [("/al6", 9)]))
         scripts.append(sets([("/al%d" % i, 5) for i in range(2, 8)]))
         scripts.append(sets([("/al%d" % i, 10 - i) for i in range(8)]))
+        # long toggle arrays: the saved form holds a compressed run of toggles ("5xfalse true", "6xtrue false true")
+        T = lambda a, on=True: dict(op="set", addr=a, ty="T" if on else "F")
+        scripts.append([T("/ab5"), dict(op="saveload", seed=6)])
+        scripts.append([T("/ab%d" % i) for i in range(6)] + [T("/ab7"), dict(op="saveload", seed=7)])
+        scripts.append([T("/ab%d" % i) for i in range(8)] + [T("/ab6", False), dict(op="saveload", seed=8)])
+        scripts.append([T("/ab0"), T("/ab6"), T("/ab7"), dict(op="saveload", seed=9)])
         scripts.append([dict(op="set", addr="/fx_on", ty="T"), dict(op="set", addr="/fx/voice1/vol", ty="i", v=100), dict(op="set", addr="/fx/gain", ty="i", v=9), dict(op="saveload", seed=2)])
         scripts.append([dict(op="set", addr="/fx/voice0/vol", ty="i", v=1), dict(op="set", addr="/fx_on", ty="T"), dict(op="set", addr="/fx/voice1/vol", ty="i", v=127), dict(op="saveload", seed=3)])
         scripts.append([dict(op="set", addr="/fx_on", ty="T"), dict(op="set", addr="/fx/type", ty="i", v=2), dict(op="set", addr="/fx/level", ty="i", v=55), dict(op="saveload", seed=4)])
